@@ -1,7 +1,8 @@
 (* Properties/C19.v — converted maps are well-formed inputs of their target mode (the modelled
    parts; pattern choice and slider geometry are exercised by the direct oracle only — partial). *)
 From Coq Require Import ZArith List Bool Floats Reals.
-From V Require Import Tables F64 F32 FExact FInt FDy Decode DecodeProofs ManiaCols ManiaColsProofs Prng PrngProofs.
+From Flocq Require Import Core.
+From V Require Import Tables F64 F32 FExact FInt FDy Decode DecodeProofs ManiaCols ManiaColsProofs Prng PrngProofs TaikoSplit TaikoSplitProofs.
 Import ListNotations.
 Open Scope Z_scope.
 
@@ -90,3 +91,29 @@ Print Assumptions C19_next_double_unit.
 Example C19_random_column_example :
   orun (onew 1337) [ORange 0 7; ORange 2 5; OBool; OInt] = [0; 2; 0; 1928063929].
 Proof. vm_compute. reflexivity. Qed.
+
+(* taiko conversion, slider splitting (Model/TaikoSplit.v: should_convert_slider_to_taiko_hits and the
+   tick loop, bit-exact on binary64 and compared with the real conversion on every run).  For every
+   slider the conversion decides to split - any map version, slider multiplier, tick rate, velocity,
+   beat length, path length - with a finite start time within +-2^40 ms and 1..2^31 spans: the
+   replacement is never empty, starts with a hit at the slider's own start time, and its hits are
+   finite and in non-decreasing time order up to the loop's limit.  Hence the branch that removes
+   the slider (`idx -= 1`) is dead, and each replacement keeps the map in time order. *)
+Theorem C19_taiko_split_slider : forall version sm tr t dist spans sv bl l,
+  fin t -> (Rabs (RV t) <= bpow radix2 40)%R -> 1 <= spans <= 2 ^ 31 ->
+  sp_convert (should_convert version sm tr dist spans sv bl) = true ->
+  convert_obj version sm tr (TSlider t dist spans sv bl) = Some l ->
+  exists times, l = map (fun x => (0, x)) (t :: times)
+    /\ chain (RV t) (t :: times) (RV (tick_limit t (should_convert version sm tr dist spans sv bl))).
+Proof. exact split_slider_spec. Qed.
+Print Assumptions C19_taiko_split_slider.
+
+(* what the split decision guarantees: a duration that fits u32 and a finite, strictly positive tick
+   spacing of at most 2^32 ms (so the loop's `tick == 0` escape is never the reason it stops) *)
+Theorem C19_taiko_split_params : forall version sm tr dist spans sv bl,
+  1 <= spans <= 2 ^ 31 ->
+  let p := should_convert version sm tr dist spans sv bl in
+  sp_convert p = true ->
+  0 <= sp_duration p <= 4294967295 /\ fin (sp_tick p) /\ (0 < RV (sp_tick p) <= IZR 4294967295)%R.
+Proof. exact should_convert_facts. Qed.
+Print Assumptions C19_taiko_split_params.
